@@ -19,6 +19,7 @@ E1Edbs ==
   { {A("e", <<N1, N2>>), A("e", <<N2, N3>>), A("f", <<N1>>)},
     {A("e", <<N1, N1>>), A("e", <<N1, N2>>), A("e", <<N2, N1>>), A("f", <<N2>>)} }
 KeepAll(r) == TRUE
+KeepSafe(r) == Safe(r)
 E1Bodies(k) == UNION {[1..j -> E1Lits] : j \in 1..k}
 E1Rules(k) == {[h |-> hd, b |-> bd, t |-> <<"none">>] : hd \in E1Heads, bd \in E1Bodies(k)}
 E1SafeRules(k) == {r \in E1Rules(k) : Safe(r)}
